@@ -1223,6 +1223,8 @@ def scenario_of(ex):
                 out.append(("Ident", f[0].tag.split(":", 1)[1]))
             elif k == "IntLit":
                 out.append(("IntLit", model.eval(f[0].bv, model_completion=True).as_long()))
+            elif k == "StringLit":
+                out.append(("StringLit", "k"))      # every string literal of a template may spell the same text
             elif k == "FStringLit":
                 segs = []
                 for sg in f[0].items:
@@ -1404,6 +1406,10 @@ TARGETS = [
     tgt("gram_call_chain", ["f", "LParen", "a", "RParen", "Dot", "g", "LParen", "b", "Comma", "c", "RParen"], "`f(a).g(b, c)`: calls chain left to right"),
     tgt("gram_lines", ["a", ("Add", "OrOr", "LessThan"), "b", ("Multiply", "Question"), "c", ("Colon", "Add"), "d", "LBracket", "e", "RBracket"],
         "`a + b * c + d[e]`, `a || b ? c : d[e]` ... with every token on its own line, each further left than the one before: spans are ordered by line first", layout=stairs),
+    tgt("gram_lazy_fail", ["@a", ("OrOr", "AndAnd"), "#", ("Divide", "Mod", "LessThan"), "#"], "`a || 1 / 0`, `1 && 2 % 0`: a constant operand that may fail is still subject to the laziness of `||` and `&&`"),
+    tgt("gram_fail_lazy", ["#", ("Divide", "Mod"), "#", ("OrOr", "AndAnd"), "@a"],
+        "`1 / 0 || a`: a failing constant on the left"),
+    tgt("gram_fail_cond", ["#", "Divide", "#", "Question", "@a", "Colon", "b"], "`1 / 0 ? a : b`: a constant condition that may fail"),
     tgt("gram_map_const", ["LBrace", "$", "Colon", "@a", "Comma", "$", "Colon", "#", ("Comma", "RBrace"), "RBrace"],
         "`{'k': a, 'l': 2}` with constant and variable values: the folded literal and the run-time MkDict give the same entries in source order"),
     tgt("gram_map_field", ["LBrace", "$", "Colon", "@a", "RBrace", ("Dot", "Add"), "b"], "`{'k': 1}.b`, `{'k': a} + b`: a field access on a constant object is folded only when the field exists"),
@@ -1422,5 +1428,5 @@ TARGETS = [
 # which property checks run which templates (every template decides all its obligations; this only
 # keeps each property's check to the templates that exercise its subject)
 for _t in TARGETS:
-    lazy = any(k in _t["name"] for k in ("atoms", "cond", "paren3", "chain4", "list", "map", "match"))
+    lazy = any(k in _t["name"] for k in ("atoms", "cond", "paren3", "chain4", "list", "map", "match", "lazy", "fail"))
     _t["props"] = ["C02", "C09", "C17", "C18", "C10"] + (["C05"] if lazy else []) + (["C01"] if _t["name"] in ("gram_atoms2", "gram_call", "gram_unary") else []) + (["C14"] if _t["name"] == "gram_fstring" else [])
